@@ -42,6 +42,22 @@ type UDPSock struct {
 	connected unix.Sockaddr
 	queue     []Datagram
 	closed    bool
+	// a connected socket whose peer port is gone: the datagram it sends is
+	// answered by an ICMP port-unreachable, which shows up as a pending socket
+	// error (EPOLLERR; the next send/recv on the socket returns ECONNREFUSED once)
+	Unreach bool
+	soErr   Errno
+}
+
+// PendingError reports the pending socket error (0 if none).
+func (u *UDPSock) PendingError() Errno { return u.soErr }
+
+// UDPOf returns the UDP socket behind a descriptor (nil if it is none).
+func (k *Kernel) UDPOf(fd int) *UDPSock {
+	if e := k.fds[fd]; e != nil && e.file.kind == kUDP {
+		return e.file.udp
+	}
+	return nil
 }
 
 func (u *UDPSock) close(k *Kernel) {
@@ -61,6 +77,12 @@ func (u *UDPSock) close(k *Kernel) {
 }
 
 func (u *UDPSock) recv(k *Kernel, fd int, p []byte) (int, unix.Sockaddr, Errno) {
+	if u.soErr != 0 {
+		e := u.soErr
+		u.soErr = 0
+		k.Stats["udp-pending-error-reported"]++
+		return -1, nil, e
+	}
 	if len(u.queue) == 0 {
 		return -1, nil, unix.EAGAIN
 	}
@@ -80,6 +102,19 @@ func (u *UDPSock) send(k *Kernel, fd int, p []byte, to unix.Sockaddr) Errno {
 	}
 	if len(p) > 65507 {
 		return unix.EMSGSIZE
+	}
+	if u.soErr != 0 {
+		e := u.soErr
+		u.soErr = 0
+		k.Stats["udp-pending-error-reported"]++
+		return e
+	}
+	if to == nil && u.Unreach {
+		// the datagram leaves; the ICMP answer makes the error pending
+		u.soErr = unix.ECONNREFUSED
+		k.Stats["udp-icmp-unreachable"]++
+		u.file.wake()
+		return 0
 	}
 	k.UDPSent = append(k.UDPSent, UDPSentRec{Fd: fd, Payload: append([]byte(nil), p...), To: to, Task: k.taskName(), Step: k.step()})
 	return 0
